@@ -2,7 +2,7 @@
 
 Channels (see CONVENTIONS.md for the plugin interface):
   w   lib/dispatchcloud/worker     real worker/Pool/remoteRunner functions in a (state, timer) configuration
-                                   against the response model                    (ops tk sb pr sy kl uk sc o1 cr rs rc)
+                                   against the response model                    (ops tk sb pr sy kl uk sc o1 cr rs rc tg wc)
   s   lib/dispatchcloud/scheduler  real sync() / fixStaleLocks() against stubs    (ops sw fl)
   e2e lib/dispatchcloud            real dispatcher against the stub cloud with a randomized fault schedule,
                                    a restart, and a wall-clock deadline           (op  e2e)
@@ -319,6 +319,8 @@ def generate(rng, tier):
     cases += _gen_cr(rng, tier)
     cases += _gen_rs(rng, tier)
     cases += ["rc 1", "rc 0"]
+    cases += ["tg %s %s %d %d" % t for t in itertools.product("rhd-", "rhd", (0, 1), (0, 1))]
+    cases += ["wc %s %s" % (_us(sg), _us(rg)) for sg in ([], [1]) for rg in ([], [2], [2, 3])]
     cases += _gen_sw(rng, 10000 if big else 800)
     cases += _gen_fl(rng, 3000 if big else 240)
     # malformed stream
@@ -606,6 +608,37 @@ def _oracle_rs(f, impl):
     return None
 
 
+def _oracle_tg(f, impl):
+    if impl == "set=none":
+        if f[1] != f[2] or f[3] != "1":
+            return "the instance's IdleBehavior / InstanceType tag is out of date but no tags were written"
+        return None
+    if not impl.startswith("set="):
+        return "driver could not observe the case: " + impl[:200]
+    got = dict(kv.split("=", 1) for kv in impl[4:].split(";") if "=" in kv)
+    want = {"InstanceSetID": "set1", "InstanceSecret": "sec1", "InstanceType": "type1",
+            "IdleBehavior": {"r": "run", "h": "hold", "d": "drain"}[f[2]]}
+    if f[4] == "1":
+        want["zone"] = "x"
+    for k, v in want.items():
+        if got.get(k) != v:
+            return (f"the tag set written to the instance lacks {k}={v} (SetTags replaces the whole set: without "
+                    f"its InstanceSetID tag the instance is no longer listed, the pool forgets it and never destroys it)")
+    return None
+
+
+def _oracle_wc(f, impl):
+    m = re.fullmatch(r"closed=(\d) held=([01])", impl)
+    if not m:
+        return "driver could not observe the case: " + impl[:200]
+    if m.group(1) != "1":
+        return "the executor of a dropped worker was not closed"
+    if m.group(2) == "1":
+        return ("worker.Close() closes the SSH executor while holding the pool mutex: an SSH handshake in progress "
+                "needs that mutex to finish, so the pool (and with it the scheduler) can lock up")
+    return None
+
+
 def _oracle_rc(f, impl):
     if impl == "ok":
         return None
@@ -651,7 +684,7 @@ def oracle(case, impl):
     if impl == "bad-op":
         return None
     try:
-        fn = {"rc": _oracle_rc, "rs": _oracle_rs, "cr": _oracle_cr, "o1": _oracle_o1, "tk": _oracle_tk, "sb": _oracle_sb, "pr": _oracle_pr, "sy": _oracle_sy, "kl": _oracle_kl,
+        fn = {"tg": _oracle_tg, "wc": _oracle_wc, "rc": _oracle_rc, "rs": _oracle_rs, "cr": _oracle_cr, "o1": _oracle_o1, "tk": _oracle_tk, "sb": _oracle_sb, "pr": _oracle_pr, "sy": _oracle_sy, "kl": _oracle_kl,
               "uk": _oracle_uk, "sc": _oracle_sc, "sw": _oracle_sw, "fl": _oracle_fl, "e2e": _oracle_e2e}.get(f[0])
         return fn(f, impl) if fn else None
     except (ValueError, IndexError, KeyError) as e:
@@ -674,6 +707,8 @@ def nontrivial_key(case, impl):
         return case if "a1" in impl else None
     if f[0] == "rs":
         return case if ("e" in f[1] or "r" in f[1]) else None
+    if f[0] == "tg":
+        return case if impl != "set=none" else None
     if f[0] == "sw":
         return case if not impl.startswith("-;-;wake=0") else None
     if f[0] == "fl":
